@@ -3,7 +3,10 @@
 E3 configuration explorer.  A cell = (object family, size, finite-difference option, value catalogue); inside
 a cell the complete product of the family's option facets (parameterisation, passing form, location kind,
 boundary condition, order, geometry, forward-model kind ...) is built and every object is evaluated at the
-complete point alphabet (scaled basis points + generic points inside the support, points outside the support).
+complete point alphabet (scaled basis points + generic points inside the support, points outside the support, and
+integer-valued points inside / outside the support, each handed over in every representation of an array_like
+evaluation point: float64 array, int64 array, list of python ints, float32 array, python int / float for a
+one-component variable).
 Oracle: gradient() raises, or returns an array with as many entries as the evaluated variable that equals the
 Richardson-extrapolated central difference of the *same object's* logd; outside the support: not finite.
 Failing variants of a cell are coalesced into narrow signatures (only the facets that discriminate failing
@@ -21,12 +24,21 @@ PROPERTY = "C03"
 RULE = ("cells = family x size x FD option (full product inside the bound); every cell builds the full product of "
         "the family's option facets and compares gradient() with the Richardson central difference of the same "
         "object's logd at every point of the alphabet (scaled basis + generic inside, one/all/boundary outside); "
+        "facet 'representation of the evaluation point': integer-valued points inside the support (>= 1/4 from its "
+        "bounds and from kinks) and outside it (one/all coordinates below/above, integer boundary where the family "
+        "excludes it) are handed to gradient() as float64 array, int64 array, list of python ints, float32 array "
+        "(not under the FD option) and, for one-component variables, python int and python float - for every object "
+        "of every family (plain, MRF, conditional, all composites), crossed with all option facets and FD off/on; the "
+        "reference is always the Richardson derivative of the object's logd at the float64 version of the same point; "
         "a cell is non-trivial when at least one gradient vector was returned and compared (not only refusals)")
 BOUND = {
     "quick": "plain families dim 1..3, MRFs 1-D N=2..4 and 2-D 2x2/3x3, composites with parameter dim 3..4 (range dim 4..5, images 3x1 and 2x2; Lognormal-noise model/geometry product at dim 3 only); "
-             "FD option off/on (epsilon 1e-8); 1 generic point + all scaled basis points; 1 of 3 value catalogues",
+             "FD option off/on (epsilon 1e-8); 1 generic point + all scaled basis points; integer-valued points: 1 inside "
+             "(2 for the scalar-parameter families and UserDefined/gallery) + up to 5 outside, each in 4 representations "
+             "(6 at dim 1; float32 dropped under FD); 1 of 3 value catalogues",
     "thorough": "plain families dim 1..6, MRFs 1-D N=2..7 and 2-D 2x2..4x4, composites parameter dim 2..6 (images up to 2x3); "
-                "3 generic points + basis; FD off/on; 1 of 3 value catalogues per run (seed selects)",
+                "3 generic points + basis; 3 integer-valued inside points + up to 5 outside in every representation; FD off/on; "
+                "1 of 3 value catalogues per run (seed selects)",
 }
 ASSUMPTIONS = [
     "the reference derivative is Richardson-extrapolated central differences (h=1e-3 and 2.5e-4) of the object's own "
@@ -44,6 +56,12 @@ ASSUMPTIONS = [
     "user-supplied pieces (model Jacobians, geometry.gradient, PDE gradients, UserDefined gradient_func) are correct "
     "by construction in the harness; only the library's wiring/chain rule around them is under test",
     "outside the support: any result with at least one non-finite entry, or a refusal, is accepted",
+    "representations of the evaluation point: only integer-valued points with entries in a window of 7 consecutive "
+    "integers are re-represented (so that all forms denote exactly the same point); a refusal (e.g. TypeError for a list) "
+    "is accepted in every non-float64 form; float32 points are accepted at 1e-4*max(1,|g|) (the library may compute in "
+    "single precision) and are not evaluated under the FD option (the step 1e-8 is below single-precision resolution); "
+    "other dtypes (int32/int8/unsigned, complex, tuples, CUQIarray) are not covered; python int/float are folded into the "
+    "signature classes 'int'/'float64'; families whose support contains no integer (Beta) get integer points outside only",
     "values outside the dyadic catalogues and dimensions above the bound are not covered",
 ]
 
@@ -102,6 +120,9 @@ def _generators(cell):
 
 
 FD_EPS = 1e-8
+# signature facet of a representation (python scalars exist for one-component variables only: folding them into the
+# class of their type keeps the signature of one defect the same in every dimension; the message names the exact form)
+XREP_CLASS = {"float64": "float64", "pyfloat": "float64", "int64": "int", "pyint": "int", "list": "list", "float32": "float32"}
 
 
 def _reassign_judge(live, fresh, pts):
@@ -166,6 +187,10 @@ def eval_cell(cell):
             rfac = {"class": component, "_fixed": facets.get("_fixed", "")}
         else:
             rcomp, rkeys, rfac = component, keys, facets
+        # facet "representation of the evaluation point": the catalogue points above are float64 arrays; the
+        # integer-valued points below are handed over in every representation of E.reps_for
+        rkeys = list(rkeys) + ["xrep"]
+        rfac = dict(rfac, xrep="float64")
         for kind, x in case.inside:
             res.transitions += 1
             o = E.observe(case, kind, x, fd, FD_EPS)
@@ -208,6 +233,25 @@ def eval_cell(cell):
             if o["status"] in ("ok", "bad"):
                 compared += 1
                 res.evaluations += 1
+        # the same integer-valued point in every representation (float64 / int64 arrays, list of python ints, float32
+        # array, python int / float for a one-component variable): gradient raises, or is the derivative of the
+        # object's logd at the float64 version of the point; outside the support: raises or not finite
+        for where, points in (("in", case.int_inside), ("out", case.int_outside)):
+            for kind, x in points:
+                cache = {}
+                for xrep in E.reps_for(len(x), fd):
+                    res.transitions += 1
+                    if where == "in":
+                        o = E.observe(case, kind, x, fd, FD_EPS, rep=xrep, cache=cache)
+                    else:
+                        o = E.observe_outside(case, kind, x, rep=xrep)
+                    if o["status"] == "bad" and fd:
+                        o["msg"] += " {%s}" % fkey
+                    rec.add(rcomp, op_in if where == "in" else op_out, rkeys, dict(rfac, xrep=XREP_CLASS[xrep]), o)
+                    _tally(res, component, where, o, xrep)
+                    if o["status"] in ("ok", "bad"):
+                        compared += 1
+                        res.evaluations += 1
     rec.emit()
     res.traces += compared      # every compared (object, point) pair: reference derivative replayed against gradient()
     if compared == 0:
@@ -215,8 +259,10 @@ def eval_cell(cell):
     return res
 
 
-def _tally(res, component, where, o):
+def _tally(res, component, where, o, xrep=None):
     st = o["status"]
+    if xrep is not None:
+        res.count("xrep=%s:%s-%s" % (xrep, where, st))      # coverage of the representation facet
     if st == "refused":
         res.refused += 1
         res.count("refused")
